@@ -6,6 +6,7 @@ import hashlib
 import pickle
 
 import c18_lib as L
+import c18_life as LIFE
 import c18_shapes as S
 import common
 from common import cbool, clist, cnat, cstr, cz
@@ -23,8 +24,11 @@ TRUSTED = [
     "Coq 8.16.1 kernel + vm_compute (no native_compute); Print Assumptions of every theorem in Props/C18.v: closed under the global context",
     "frame extractor harness/translate/c18.py (Python ast -> per class and configuration variant: guard, attributes assigned on every / some "
     "path of train() through the MRO, old attributes read by train(), attributes read / assigned by __call__; Pipeline.train seed plan); "
-    "its flow rules are stated at the top of that file; functions that do not receive `self` are assumed not to touch the component, "
-    "module-level mutable state is assumed absent (global/nonlocal fail closed)",
+    "its flow rules are stated at the top of that file; functions that do not receive `self` are assumed not to touch the component; "
+    "state outside the components is SCANNED, not assumed absent: memoising decorators, id() calls, `global` assignments, module- / class-level "
+    "containers and container defaults written by functions, over every module import-reachable from a trainable class, Pipeline.train and "
+    "training.py; the list PROCESS_STATE_ALLOWED (logging / progress display, parallel configuration, the global generator, named-tuple key "
+    "classes) in that file is trusted to name no data a model is computed from; state kept on the Dataset object or behind C extensions is not scanned",
     "library contract as an explicit hypothesis of seeds_distinct: numpy SeedSequence.spawn gives different children different seeds "
     "(spawn injective in the child index)",
     "correspondence harness: sha256-based digests of canonical bytes of every learned attribute (harness/c18_lib.py:canon), compared inside Coq "
@@ -36,6 +40,9 @@ ASSUMPTIONS = [
     "history: a retraining returns normally exactly when a fresh component trained on the same data and options does",
     "scikit-learn / implicit draw from numpy's global generator unless configured: the driver pins it before each training so equal inputs give equal bits",
     "a component instance appears under one pipeline node (Pipeline.train trains per node)",
+    "a sequence of numbers given as a seed is not empty (the model's KSeedZero is the NUMBER zero as int or numpy integer)",
+    "lifetime cases: which addresses CPython recycles is not controlled by the driver; it is recorded per fold, and a case counts as non-trivial "
+    "only if some dataset object was allocated at the address of a dropped earlier one",
 ]
 RULE = ("component histories: 2-4 train calls over 2-3 generated datasets with shifted user/item id ranges and different sizes, both retrain "
         "settings, explicit seeds, every shipped trainable component that can be trained here (17 kinds, several configurations each) plus the "
@@ -48,7 +55,12 @@ RULE = ("component histories: 2-4 train calls over 2-3 generated datasets with s
         "component trained on that dataset alone (if that raises, the retraining must raise too).  Pipeline SHAPES are a generated dimension: instrumented "
         "pipelines are wired graphs (0-2 sources per node, shared sources, use_first_of fallbacks, default node and / or aliases or neither), every node "
         "has a train counter and is run by name after every training; real pipelines include a fallback predictor behind a transforming rating-predictor node "
-        "and a second scorer reachable by name only, every component compared with the same component trained alone; scorer pairs are wired with one declared output.  non-trivial = at least two "
+        "and a second scorer reachable by name only, every component compared with the same component trained alone; scorer pairs are wired with one declared output.  Seed VALUES are a generated dimension (0, the ends of the 32- / 64-bit ranges, beyond 64 bits; as int, numpy "
+        "integer scalar, one- and two-element list, tuple, SeedSequence, generator, bit generator) for instrumented pipelines, scorer pairs and 1 in 4 step lists.  Object "
+        "LIFETIMES are a generated dimension (type=life): fold loops over 16-80 small datasets, reference pass with everything alive, then a pass that keeps the models "
+        "(all / window / long-lived only), drops the datasets (all / all but every 4th) and collects (each fold / every 8th / never), a fresh and a long-lived object per "
+        "fold compared with the reference object of the fold, directly or through a standard pipeline with a bias fallback; non-trivial there = some dataset object was "
+        "allocated at the address of a dropped earlier one.  non-trivial = at least two "
         "effective trainings on datasets with different item or user vocabularies, or a skipped call after a training; for instrumented pipelines: "
         "at least two trainable nodes and a supplied seed; for scorer pairs: two equal stochastic scorers in one pipeline; distinct = by hash of the case")
 
@@ -103,7 +115,49 @@ def variant_label(comp) -> str | None:
 
 COST = {"flexe": 2, "flexi": 2, "als": 2, "ials": 2, "funk": 2, "impals": 2, "impbpr": 2, "svd": 2}
 PIPE_SCORERS = ["bias", "iknn", "als", "pop", "uknn", "ials"]
-RNG_KINDS = ["int", "int", "seedseq", "seedseq-spawned", "none", "generator", "bitgen", "intlist", "npint"]
+RNG_KINDS = ["int", "int", "seedseq", "seedseq-spawned", "none", "generator", "bitgen", "intlist", "npint", "npint", "list1", "tuple"]
+SEEDLIKE_KINDS = ("int", "npint", "intlist", "list1", "tuple")      # seeds that Pipeline.train has to wrap in a SeedSequence itself
+# seed VALUES are a generated dimension: every non-negative integer is a seed -- zero (false in a truth test), the
+# ends of the 32- / 64-bit ranges (numpy integer scalars change type there) and values beyond any machine word
+SEED_EDGES = [1, 2**31 - 1, 2**31, 2**32 - 1, 2**32, 2**63 - 1, 2**63, 2**64 - 1, 2**64, 2**128 + 5]
+
+
+def gen_seed_value(rng, lo=0):
+    how = rng.weighted([("zero", 1), ("edge", 1), ("plain", 2)])
+    if how == "zero" and lo == 0:
+        return 0
+    if how == "edge":
+        return rng.choice(SEED_EDGES)
+    return rng.randint(1, 2**31 - 1)
+
+
+def seed_object(kind, s):
+    """The object handed over as TrainingOptions.rng for a seed value `s` in the representation `kind`."""
+    import numpy as np
+    if kind == "int":
+        return s
+    if kind == "npint":       # the numpy integer scalar that holds the value, a Python integer beyond 64 bits
+        return np.int64(s) if s < 2**63 else (np.uint64(s) if s < 2**64 else s)
+    if kind == "intlist":
+        return [s, 7]
+    if kind == "list1":
+        return [s]
+    if kind == "tuple":
+        return (s, 3)
+    if kind in ("seedseq", "seedseq-spawned"):
+        return np.random.SeedSequence(s)
+    if kind == "generator":
+        return np.random.default_rng(s)
+    if kind == "bitgen":
+        return np.random.PCG64(s)
+    return None
+
+
+def coq_rng_kind(kind, s):
+    """The model's kind of options.rng; a seed that is false in a truth test (the number zero) is a kind of its own."""
+    if kind in ("int", "npint"):
+        return "KSeedZero" if s == 0 else "KSeedLike"
+    return RNG_KIND_COQ[kind]
 
 
 def gen_steps(rng, nds):
@@ -115,6 +169,10 @@ def gen_steps(rng, nds):
         steps.append({"ds": ds, "retrain": retrain, "seed": rng.randint(1, 10**6)})
     if rng.chance(1, 4):
         steps.append({"ds": rng.below(nds), "retrain": False, "seed": rng.randint(1, 10**6)})
+    if rng.chance(1, 4):        # seed values: zero, the ends of the machine ranges, beyond them
+        r = rng.fork("seed-values")
+        for st in steps:
+            st["seed"] = gen_seed_value(r)
     return steps
 
 
@@ -179,6 +237,7 @@ def gen_instr_case(rng):
     case = {"type": "instr", "nodes": nodes, "rng": rng.choice(RNG_KINDS), "seed": rng.randint(0, 2**31 - 1),
             "spawned_before": rng.randint(1, 4), "retrain": rng.chance(1, 2), "repeat": rng.choice([1, 1, 2]),
             "options_none": rng.chance(1, 8)}
+    case["seed"] = gen_seed_value(rng.fork("seed-value"))
     # the SHAPE of the pipeline: unconnected nodes without declared outputs, or a wired graph with a default node / aliases
     case["wiring"] = S.gen_wiring(rng.fork("wiring"), [nd["name"] for nd in nodes]) if rng.chance(3, 4) else None
     return case
@@ -197,6 +256,11 @@ def gen_pair_case(rng):
         members.insert(rng.below(3), {"kind": k, "cfg": L.gen_config(rng, k)})   # ... and possibly a third one
     case = {"type": "pair", "members": members, "dataset": L.gen_dataset(rng, 0), "seed": rng.randint(1, 10**6),
             "seed_kind": rng.choice(["int", "int", "seedseq", "intlist"]), "deterministic_between": rng.chance(1, 2)}
+    r = rng.fork("seed-value")
+    case["seed"] = gen_seed_value(r)
+    case["seed_kind"] = r.choice(["int", "int", "npint", "seedseq", "intlist", "list1", "tuple"])
+    if case["seed"] == 0 and r.chance(2, 3):
+        case["seed_kind"] = r.choice(["int", "npint"])      # the representations in which zero is false in a truth test
     # the SHAPE around the scorers: unconnected nodes, or all wired to the pipeline inputs with ONE of them the declared output
     # (default node or alias) -- the others are side branches, reachable by their node names only
     r = rng.fork("layout")
@@ -222,6 +286,11 @@ def gen_cases(rng, tier):
         out.append(gen_instr_case(rng.fork(("instr", j))))
     for j in range(24 * mult):
         out.append(gen_pair_case(rng.fork(("pair", j))))
+    # object LIFETIMES: fold loops that keep the trained models and drop the datasets
+    for kind in L.KINDS:
+        costly = COST.get(kind, 1) != 1
+        for j in range((1 if costly else 2) * max(1, mult // 4)):
+            out.append(LIFE.gen_case(rng.fork(("life", kind, j)), kind, costly))
     return out
 
 
@@ -469,7 +538,8 @@ def _instr_classes(log, holder):
     def record(self, data, options):
         r = options.rng
         use = None
-        if isinstance(r, np.random.SeedSequence):     # the generator this component actually obtains from its options
+        if r is not None and not isinstance(r, (np.random.Generator, np.random.BitGenerator)):
+            # the generator this component actually obtains from its options (a child seed, or whatever seed it was handed)
             use = [int(x) for x in options.random_generator().integers(0, 2**62, 3)]
         self.trained_round = holder["round"]
         self.train_calls += 1
@@ -573,22 +643,9 @@ def run_instr(case):
     holder = {}
     pipe, comps = build_instr(case, log, holder)
     kind, seed = case["rng"], case["seed"]
-    if kind == "int":
-        given = seed
-    elif kind == "npint":
-        given = np.int64(seed)
-    elif kind == "intlist":
-        given = [seed, 7]
-    elif kind in ("seedseq", "seedseq-spawned"):
-        given = np.random.SeedSequence(seed)
-        if kind == "seedseq-spawned":
-            given.spawn(case["spawned_before"])
-    elif kind == "generator":
-        given = np.random.default_rng(seed)
-    elif kind == "bitgen":
-        given = np.random.PCG64(seed)
-    else:
-        given = None
+    given = seed_object(kind, seed)
+    if kind == "seedseq-spawned":
+        given.spawn(case["spawned_before"])
     holder["rng"] = given
     rounds = []
     for rnd in range(1, case["repeat"] + 1):
@@ -606,8 +663,8 @@ def run_instr(case):
             pipe.train(ds, opts)
         # reference: the generators of the positional children of the supplied seed
         ref = []
-        if kind in ("int", "npint", "intlist", "seedseq", "seedseq-spawned"):
-            root = np.random.SeedSequence(given) if kind in ("int", "npint", "intlist") else np.random.SeedSequence(seed)
+        if kind in SEEDLIKE_KINDS + ("seedseq", "seedseq-spawned"):
+            root = np.random.SeedSequence(given) if kind in SEEDLIKE_KINDS else np.random.SeedSequence(seed)
             start = sb if kind in ("seedseq", "seedseq-spawned") else 0
             for j in range(len(log)):
                 child = np.random.SeedSequence(root.entropy, spawn_key=(start + j,))
@@ -626,7 +683,7 @@ def run_instr(case):
             rd["runs"], rd["runs_expected"] = got, _instr_expected(case, rnd)
         rounds.append(rd)
     base = None
-    if kind in ("int", "npint", "intlist"):
+    if kind in SEEDLIKE_KINDS:
         ent = np.random.SeedSequence(given).entropy
         base = [int(x) for x in ent] if hasattr(ent, "__len__") else int(ent)
     elif kind in ("seedseq", "seedseq-spawned"):
@@ -646,7 +703,9 @@ def run_pair(case):
 
     def given():
         s = case["seed"]
-        return s if case["seed_kind"] == "int" else (np.random.SeedSequence(s) if case["seed_kind"] == "seedseq" else [s, 3])
+        if case["seed_kind"] == "intlist":
+            return [s, 3]
+        return seed_object(case["seed_kind"], s)
     from lenskit.data import ItemList, RecQuery
 
     b = PipelineBuilder()
@@ -686,7 +745,7 @@ def run_pair(case):
 
 
 def run_impl(case):
-    return {"comp": run_comp, "pipe": run_pipe, "instr": run_instr, "pair": run_pair}[case["type"]](case)
+    return {"comp": run_comp, "pipe": run_pipe, "instr": run_instr, "pair": run_pair, "life": LIFE.run}[case["type"]](case)
 
 
 # ---------------------------------------------------------------------------------------------
@@ -707,7 +766,7 @@ def term_history(cls, variant, steps):
     return f"agree_history frames {cstr(cls)} {cstr(variant)} {st} {ob}"
 
 
-RNG_KIND_COQ = {"int": "KSeedLike", "npint": "KSeedLike", "intlist": "KSeedLike", "seedseq": "KSeedSequence",
+RNG_KIND_COQ = {"int": "KSeedLike", "npint": "KSeedLike", "intlist": "KSeedLike", "list1": "KSeedLike", "tuple": "KSeedLike", "seedseq": "KSeedSequence",
                 "seedseq-spawned": "KSeedSequence", "generator": "KGenerator", "bitgen": "KBitGenerator", "none": "KNone"}
 
 
@@ -736,7 +795,27 @@ def term_pair(case, obs):
     return " && ".join(f"({t})" for t in terms)
 
 
+def term_life(case, obs):
+    """The sampled folds of a lifetime loop as a lifetime history of the model: dataset objects with an address class."""
+    def one(cls, variant, name):
+        if variant is None:
+            return "false"
+        rows = LIFE.coq_steps(obs, name)
+        if not rows:
+            return None
+        steps = clist(rows, lambda r: f"({cnat(r[1])}, {c_store(r[2])})")
+        return (f"agree_life train_keeps_outside frames {cstr(cls)} {cstr(variant)} {steps} "
+                f"{clist(rows, lambda r: c_store(r[3]))} {clist(rows, lambda r: c_store(r[4]))}")
+    if case["through"] == "component":
+        return one(obs["class"], obs["variant"], None)
+    terms = [one(cls, variant, name) for name, cls, variant, t in obs["components"] if t]
+    terms = [f"({t})" for t in terms if t is not None]
+    return " && ".join(terms) if terms else None
+
+
 def coq_term(case, obs):
+    if case["type"] == "life":
+        return term_life(case, obs)
     if case["type"] == "pair":
         return None if obs.get("error") else term_pair(case, obs)
     if case["type"] == "comp":
@@ -763,7 +842,7 @@ def coq_term(case, obs):
     terms = []
     for r in obs["rounds"]:
         calls = clist(r["calls"], lambda c: c_call(c, obs["base"]))
-        terms.append(f"(agree_pipeline pt_seed_plan pt_spawn_width {RNG_KIND_COQ[case['rng']]} {cbool(retrain)} {cnat(r['spawned_before'])} {ns} {calls})")
+        terms.append(f"(agree_pipeline pt_seed_plan pt_spawn_width {coq_rng_kind(case['rng'], case['seed'])} {cbool(retrain)} {cnat(r['spawned_before'])} {ns} {calls})")
         w = case.get("wiring")
         if w is not None:
             # the whole shape: function nodes (fallbacks) are nodes too, never trainable
@@ -772,7 +851,7 @@ def coq_term(case, obs):
             edges = clist(S.edges_of(w), lambda e: f"({cstr(e[0])}, {cstr(e[1])})")
             default = "None" if w["default"] is None else f"(Some {cstr(S.resolve(w, w['default']))})"
             aliases = clist(w["aliases"], lambda a: f"({cstr(a[0])}, {cstr(a[1])})")
-            terms.append(f"(agree_shape pt_iterates_all_nodes pt_seed_plan pt_spawn_width {RNG_KIND_COQ[case['rng']]} {cbool(retrain)} "
+            terms.append(f"(agree_shape pt_iterates_all_nodes pt_seed_plan pt_spawn_width {coq_rng_kind(case['rng'], case['seed'])} {cbool(retrain)} "
                          f"{cnat(r['spawned_before'])} (mkShape {allnodes} {edges} {default} {aliases}) {calls})")
         if obs["base"] is not None:
             got = [_dz(c["use"]) for c in r["calls"]]
@@ -863,6 +942,8 @@ def oracle_pair(case, obs):
 
 
 def oracle(case, obs):
+    if case["type"] == "life":
+        return LIFE.oracle(case, obs)
     if case["type"] == "pair":
         return oracle_pair(case, obs)
     if case["type"] == "comp":
@@ -931,6 +1012,8 @@ def _vocab(spec):
 
 
 def nontrivial(case, obs):
+    if case["type"] == "life":
+        return LIFE.nontrivial(case, obs)
     if case["type"] == "pair":
         return not obs.get("error") and bool(obs["same_config_pairs"])
     if case["type"] == "instr":
@@ -950,15 +1033,23 @@ def nontrivial(case, obs):
 
 def counters(case, obs):
     yield "type=" + case["type"]
+    if case["type"] == "life":
+        yield from LIFE.counters(case, obs)
+        return
     if case["type"] == "pair":
         yield "pair=" + "+".join(m["kind"] for m in case["members"]) + ("/bias-first" if case["deterministic_between"] else "")
         yield "pair-seed=" + case["seed_kind"]
+        yield "pair-seed-value=" + seed_class(case["seed"])
         yield "pair-layout=" + case.get("layout", "flat")
         if obs.get("error"):
             yield "train-error=" + obs["error"]
         return
     if case["type"] == "instr":
         yield "rng=" + case["rng"]
+        if case["rng"] not in ("none",):
+            yield "instr-seed-value=" + seed_class(case["seed"])
+            if coq_rng_kind(case["rng"], case["seed"]) == "KSeedZero":
+                yield "instr-seed-false-in-a-truth-test"
         yield f"trainable-nodes={min(4, sum(1 for n in case['nodes'] if n['trainable']))}"
         yield f"repeat={case['repeat']}"
         w = case.get("wiring")
@@ -981,6 +1072,8 @@ def counters(case, obs):
     else:
         yield "builder=" + case["builder"]
     yield "retrain-pattern=" + "".join("T" if s["retrain"] else "F" for s in case["steps"])
+    for cl in sorted({seed_class(s["seed"]) for s in case["steps"]} - {"<2^31"}):
+        yield "step-seed-value=" + cl
     for s in obs["steps"]:
         if "error" in s:
             yield "train-error=" + s["error"]
@@ -1014,7 +1107,13 @@ def counters(case, obs):
                 yield "trainable-side-branch-node=" + n
 
 
+def seed_class(s) -> str:
+    return "0" if s == 0 else "<2^31" if s < 2**31 else "<2^32" if s < 2**32 else "<2^63" if s < 2**63 else "<2^64" if s < 2**64 else ">=2^64"
+
+
 def sample(case, obs):
+    if case["type"] == "life":
+        return LIFE.sample(case, obs)
     if case["type"] == "pair":
         return {"case": {k: v for k, v in case.items() if k != "dataset"}, "observation": obs}
     if case["type"] == "instr":
@@ -1033,6 +1132,8 @@ def shrink(case, fails):
     _shrinks += 1
     if _shrinks > MAX_SHRINKS or case["type"] == "pair":     # cap the cost of a failing run: five keys are minimised
         return case
+    if case["type"] == "life":
+        return LIFE.shrink(case, fails)
     if case["type"] == "instr":
         c = dict(case)
         if case.get("wiring") is None:
